@@ -1212,3 +1212,63 @@ Definition session_prep_accept (rs1 : list resp) (rs2 : option (list resp)) (o :
   | None => match o with PO_ok _ _ => prep_accept rs1 o | PO_err _ => false end
   | Some r2 => (prep_accept rs1 (PO_err PE_AllFailed) || prep_accept rs1 (PO_err PE_IdsMismatch)) && prep_accept r2 o
   end.
+
+(* ------------------------------------------------------------------------------------ *)
+(* F17, second shape (clusters whose nodes announce DIFFERENT columns for a statement):     *)
+(* Session::prepare keeps the result metadata of ONE successful PREPARED and discards the   *)
+(* others; a node without the extension whose own answer at preparation announced other     *)
+(* columns gets its NO_METADATA rows decoded with the kept ones when cached metadata is on. *)
+(* [pa] = the columns the nodes announced for the statement at preparation.                *)
+(* ------------------------------------------------------------------------------------ *)
+Definition KnownClassPrep (pa : list (list col)) (ext uc : bool) (cols : list col) : Prop :=
+  Quadrant ext uc /\ exists c', In c' pa /\ c' <> [] /\ c' <> cols.
+Definition known_class_prepb (pa : list (list col)) (ext uc : bool) (cols : list col) : bool :=
+  quadrantb ext uc && existsb (fun c' => negb (is_nil c') && negb (list_eqb col_eqb c' cols)) pa.
+
+(* Bookkeeping PER NODE for the nodes without the extension (used on mixed clusters, where the nodes
+   announce different things): [an nd s] = the columns node nd most recently announced for statement
+   s — its answer at preparation, then its re-preparations.  An operation on such a node that decoded
+   rows that came without metadata (as requested) with other columns is reported:
+   (index, true) = the node's latest announcement was a re-preparation (first shape),
+   (index, false) = it was its answer at preparation (second shape). *)
+Definition pn_xchg (ST : nat -> stmt) (ns : nat) (nd : nat) (an : nat -> nat -> list col * bool) (x : xchg)
+  : nat -> nat -> list col * bool :=
+  match x_req x, x_resp x with
+  | Q_prepare t, RPrepared id m =>
+      match stmt_of_text ST ns t with
+      | Some s =>
+          if bytes_eqb id (s_id (ST s)) && negb (is_nil (m_cols m))
+          then upd an nd (upd (an nd) s (m_cols m, true))
+          else an
+      | None => an
+      end
+  | _, _ => an
+  end.
+
+Fixpoint plain_node_check (ST : nat -> stmt) (ns : nat) (an : nat -> nat -> list col * bool) (i : nat) (tr : list top)
+  : list (nat * bool) :=
+  match tr with
+  | [] => []
+  | TO_exec nd false a xs out :: r =>
+      let an' := fold_left (pn_xchg ST ns nd) xs an in
+      let rest := plain_node_check ST ns an' (Datatypes.S i) r in
+      match last (map Some xs) None, out with
+      | Some x, OB_rows cols _ _ _ =>
+          match x_req x, x_resp x with
+          | Q_execute f, RRows b =>
+              match rb_meta b with
+              | RM_none _ =>
+                  (* a node that never announced columns (late statement) has nothing to compare with *)
+                  if f_skip f && negb (is_nil (fst (an' nd (xa_stmt a)))) &&
+                     negb (list_eqb col_eqb cols (fst (an' nd (xa_stmt a))))
+                  then (i, snd (an' nd (xa_stmt a))) :: rest else rest
+              | RM_full _ _ => rest
+              end
+          | _, _ => rest
+          end
+      | _, _ => rest
+      end
+  | TO_batch nd false _ xs _ :: r =>
+      plain_node_check ST ns (fold_left (pn_xchg ST ns nd) xs an) (Datatypes.S i) r
+  | _ :: r => plain_node_check ST ns an (Datatypes.S i) r
+  end.
